@@ -458,3 +458,165 @@ def c13(tier, seed):
     )
     out.assumptions = COMMON_ASSUMPTIONS + ["mtimes of all files and directories are pinned before each command (directory mtimes are written into manifests)"]
     return out
+
+
+@register("C15")
+def c15(tier, seed):
+    """crash points of create: model (MhlCommit) + every crash point materialised on the real code"""
+    from multiprocessing import Pool
+    from . import commitcheck as CC
+    from . import validate
+
+    out = Outcome("C15", tier, seed, "fault_enumeration")
+    r = run_static_model(out, "MC_Commit")
+    # negative control: the in-place protocol must violate C15 in the model (guards against a vacuous model)
+    import shutil
+    from . import tlc
+    wd = tlc.workdir("sm-inplace")
+    try:
+        tlc.prepare(wd)
+        rn = tlc.run_tlc(wd, "MC_Commit", "MC_CommitInPlace.cfg", workers=4)
+        out.coverage["negative_control_in_place_protocol_violates"] = rn.violation or "NONE"
+        if not rn.violation:
+            out.machinery.append("negative control failed: the in-place write protocol satisfies C15 in the model")
+    finally:
+        shutil.rmtree(wd, ignore_errors=True)
+    priors = [0, 1] if tier == "quick" else [0, 1, 2, 3]
+    namesets = ["plain"] if tier == "quick" else ["plain", "xml", "unicode"]
+    known = [k for k in load_known() if k["property"] == "C15" and k.get("status") == "open"]
+    lines, cases = [], []
+    for layout in CC.LAYOUTS:
+        for prior in priors:
+            for names in namesets:
+                ref = CC.reference_run(layout, prior, names)
+                lines.append({"tid": "proto-%s-%d-%s" % (layout, prior, names), "i": 0, "kind": "protocol", "events": ref["events"], "order": ref["order"],
+                              "hists": ref["hists"], "atomic": ref["atomic"], "exit": ref["exit"]})
+                for k in range(ref["n"]):
+                    for mode in ("none", "partial", "full"):
+                        if mode == "partial" and ref["events"][k]["k"] != "write":
+                            continue
+                        cases.append((layout, prior, names, k, mode, ref))
+    with Pool(16) as pool:
+        crashed = pool.map(CC.crash_case, cases, chunksize=8)
+    lines += crashed
+    verdicts, diags = validate.validate(lines, [], trace_module="MhlCommitTrace", tag="C15")
+    for d in diags[:3]:
+        out.machinery.append("trace validation stopped early: %s" % d["tail"][-1500:])
+    from . import signatures
+    pclauses = ["P_C15_OldIntact", "P_C15_ChainLists", "P_C15_AllOrNothing", "P_C15_Loadable", "P_C15_Protocol", "P_C08_ChildFirst"]
+    distinct = set()
+    drift = collections.Counter()
+    counts = collections.Counter()
+    for ln in lines:
+        v = verdicts.get((ln["tid"], ln["i"]))
+        if not v:
+            continue
+        if ln["kind"] == "crash":
+            distinct.add((ln["layout"], ln["prior"], ln["k"], ln["mode"]))
+        for c in pclauses:
+            if c in v:
+                counts[c] += 1
+                if v[c] is False:
+                    fid = signatures.match(known, "C15", c, ln, v)
+                    if fid:
+                        n, what = out.known.get(fid["id"], (0, fid["what"]))
+                        out.known[fid["id"]] = (n + 1, what)
+                    else:
+                        desc = "layout=%s prior=%s crash at call %s (%s) mode=%s -> next info/verify/create exit %s" % (
+                            ln.get("layout"), ln.get("prior"), ln.get("k"), json.dumps(ln["events"][ln["k"]]) if ln["kind"] == "crash" else "-", ln.get("mode"), json.dumps(ln.get("after")))
+                        out.violation(c, desc, {"kind": "crash", "layout": ln.get("layout"), "prior": ln.get("prior"), "names": ln["tid"].rsplit("-", 1)[-1], "k": ln.get("k"), "mode": ln.get("mode")}, ln.get("k"))
+        for c, val in v.items():
+            if c.startswith("M_") and val is False:
+                drift[c] += 1
+    out.coverage["evaluations"] = len(verdicts)
+    out.coverage["traces_validated_against_impl"] = len(lines)
+    out.coverage["distinct_nontrivial"] = len(distinct)
+    out.coverage["clause_evaluations"] = dict(counts)
+    out.coverage["drift"] = dict(drift)
+    out.coverage["samples"] = [{k: v for k, v in ln.items() if k in ("tid", "layout", "prior", "k", "mode", "after", "order")} for ln in crashed[:3]] + [
+        {"protocol_events_flat_prior0": [(e["k"], e["h"], e["f"]) for e in lines[0]["events"]]}]
+    out.coverage["rule"] = (
+        "fault = kill of `create ROOT -h md5` at its k-th file-system call (mkdir / open-for-write / each write / close / replace as issued by "
+        "the manifest and chain writers, enumerated from an uninterrupted reference run), applied not at all, partially (writes) or fully, "
+        "for every k, on histories {flat, root+child, root+child+grandchild} x prior generations; after each crash the files are read "
+        "independently and info, verify, create are run; MhlCommitTrace folds the specification's Apply over the recorded call prefix to "
+        "predict the abstract file state and loader outcome (M) and evaluates the C15 predicates on the observed state (P). "
+        "distinct_nontrivial = distinct (layout, prior, call index, mode)."
+    )
+    out.coverage["exhaustive"] = True
+    out.assumptions = [
+        "process kill, not power loss: completed writes are not reordered or lost; POSIX rename atomicity on the sandbox tmpfs",
+        "every write is a crash point (the harness writes unbuffered, which yields a superset of the states a buffered writer can leave)",
+        "after a crash on a history without any committed generation, the dedicated refusals 30/32 count as loading normally; for histories with >= 1 generation every next command must exit 0",
+    ] + COMMON_ASSUMPTIONS[1:3]
+    return out
+
+
+@register("C05")
+def c05(tier, seed):
+    """tampering: fault states enumerated by TLC from MhlTamper, materialised on real histories, every reading command run"""
+    import shutil
+    from multiprocessing import Pool
+    from . import commitcheck as CC
+    from . import tlc, validate
+
+    out = Outcome("C05", tier, seed, "fault_enumeration")
+    wd = tlc.workdir("tamper")
+    try:
+        tlc.prepare(wd)
+        r = tlc.run_tlc(wd, "MC_Tamper", "MC_Tamper.cfg", workers=4)
+        out.add_model(r, "MC_Tamper")
+        states = list(tlc.printed(r.out, "BEH"))
+    finally:
+        shutil.rmtree(wd, ignore_errors=True)
+    uniq = {json.dumps(s, sort_keys=True): s for s in states}
+    states = [uniq[k] for k in sorted(uniq)]
+    out.coverage["fault_states_from_model"] = len(states)
+    cases = []
+    for k, s in enumerate(states):
+        has_edit = any(m == "edited" for h in s["st"] for m in h["mans"])
+        if tier == "quick":
+            edits = [CC.EDITS[(k + seed) % len(CC.EDITS)]]
+        else:
+            edits = CC.EDITS if has_edit else ["flip_first"]
+        names = ["plain", "xml", "unicode"][(k + seed) % 3]
+        for e in edits:
+            cases.append((k, s, e, names, seed))
+    with Pool(16) as pool:
+        res = pool.map(CC.tamper_case, cases, chunksize=4)
+    lines = [ln for ls in res for ln in ls]
+    verdicts, diags = validate.validate(lines, [], trace_module="MhlTamperTrace", tag="C05")
+    for d in diags[:3]:
+        out.machinery.append("trace validation stopped early: %s" % d["tail"][-1500:])
+    counts = collections.Counter()
+    distinct = set()
+    for ln in lines:
+        v = verdicts.get((ln["tid"], ln["i"]))
+        if not v:
+            continue
+        if v.get("A_faulty"):
+            distinct.add((json.dumps(ln["st"], sort_keys=True), ln["cmd"], tuple(ln["R"]), ln["edit"]))
+        for c in ("P_C05_Refuse", "P_C05_NoWrite"):
+            counts[c] += 1
+            if v.get(c) is False:
+                out.violation(c, "cmd=%s root=%s edit=%s exit=%s expected=%s exc=%s faults=%s delta=%s" % (
+                    ln["cmd"], ln["R"], ln["edit"], ln["exit"], v.get("expected"), ln["exc"],
+                    json.dumps([h for h in ln["st"] if h["chain"] != "ok" or any(m != "ok" for m in h["mans"])]), json.dumps(ln["delta"][:3])),
+                    {"kind": "tamper", "state": ln["st"], "edit": ln["edit"], "cmd": ln["cmd"], "R": ln["R"]}, ln["i"])
+    out.coverage["evaluations"] = len(verdicts)
+    out.coverage["traces_validated_against_impl"] = len(cases)
+    out.coverage["distinct_nontrivial"] = len(distinct)
+    out.coverage["clause_evaluations"] = dict(counts)
+    out.coverage["samples"] = [{k: ln[k] for k in ("tid", "cmd", "R", "edit", "exit", "st")} for ln in lines[:2]]
+    out.coverage["rule"] = (
+        "fault states (<= 2 faults: manifest edited / manifest removed / chain removed, in any generation of any of the histories root, d, d/e, d2 "
+        "with 2/3/4/3 generations) are enumerated by TLC from MhlTamper and materialised on a real nested history; 'edited' is realised by one of "
+        "9 byte edits (bit flips first / last / middle / random, insertion, deletion, truncation to half / zero, appended newline; all of them in "
+        "the thorough tier); on each tampered tree 20 history-reading commands are run (create, create -sf, verify, verify -sf, verify -dh, diff, "
+        "info, info -sf with and without root, flatten; at roots '.' and d, info -sf also at d/e and d2). MhlTamperTrace computes the expected "
+        "refusal with the specification's loader order and requires exit = expected and an empty file-system delta and call list. "
+        "distinct_nontrivial = distinct (fault state, command, root, edit) with a fault in the command's scope."
+    )
+    out.coverage["exhaustive"] = tier == "thorough"
+    out.assumptions = ["a fault is a change of a *listed* manifest's bytes, its removal, or removal of a chain file; edits of the chain file's own content are outside the statement", "SHA-512 / C4 collision freedom"] + COMMON_ASSUMPTIONS[1:3]
+    return out
